@@ -590,6 +590,7 @@ EnvStep(s, in) ==
                             ELSE Res(TRUE, "", [s EXCEPT !.env.blocked = @ \ {in.who}], NoReq)
     [] in.op = "cctpPause"   -> Res(TRUE, "", [s EXCEPT !.env.cctpPaused = TRUE], NoReq)
     [] in.op = "cctpUnpause" -> Res(TRUE, "", [s EXCEPT !.env.cctpPaused = FALSE], NoReq)
+    [] in.op = "nextblock" -> Res(TRUE, "", s, NoReq)    \* a later block of the same chain: nothing in the state depends on height or time
     [] in.op = "bigdust" -> Res(TRUE, "", s, NoReq)      \* 2^64 units of the (untracked) big denom deposited on the orbiter account
     [] in.op = "bigback" -> Res(TRUE, "", s, NoReq)      \* big-denom coins go out over IBC again (untracked denom)
     [] OTHER -> Res(FALSE, "env", s, NoReq)
